@@ -49,10 +49,11 @@ class Ext:
 
 
 class State:
-    __slots__ = ("frames", "heap", "ghost", "glob", "pc", "next_id", "trail")
+    __slots__ = ("frames", "sframes", "heap", "ghost", "glob", "pc", "next_id", "trail")
 
     def __init__(self):
         self.frames = [{}]
+        self.sframes = []
         self.heap = {}
         self.ghost = {}
         self.glob = {}
@@ -63,6 +64,7 @@ class State:
     def copy(self):
         s = State.__new__(State)
         s.frames = [dict(f) for f in self.frames]
+        s.sframes = list(self.sframes)
         s.heap = dict(self.heap)
         s.ghost = dict(self.ghost)
         s.glob = dict(self.glob)
